@@ -13,4 +13,7 @@ for C in $ID "$@"; do
 done
 git -C /repo checkout -- . ; git -C /repo status --porcelain --untracked-files=no | head -2
 # rebuild the harness from the restored sources, so that helper scripts do not run a stale seeded binary
-(cd /verif/harness && cargo build --offline --release >/dev/null 2>&1; cargo build --offline >/dev/null 2>&1)
+# (TRY_NO_REBUILD=1 skips this inside a batch loop: bin/check rebuilds the harness at its start anyway; rebuild once after the loop)
+if [ -z "$TRY_NO_REBUILD" ]; then
+  (cd /verif/harness && cargo build --offline --release >/dev/null 2>&1; cargo build --offline >/dev/null 2>&1)
+fi
